@@ -200,6 +200,9 @@ def entry_points(T: str, D: str, variant: int = 0):
     for nlabel, nm in (("names=p.names", lambda p: p.names), ("names=list", lambda p: list(p.names)), ("names=p.indeterminants", lambda p: p.indeterminants), ("names='q0'", lambda p: "q0")):
         eps.append(("aspolynomial(p_T, %s, dtype=D)" % nlabel, lambda nm=nm: (lambda p: numpoly.aspolynomial(p, names=nm(p), dtype=D))(_poly(T, xT, one)), {(0,): castTD, (1,): one.astype(D)}))
     eps.append(("polynomial(p_T, names=p.names, dtype=D)", lambda: (lambda p: numpoly.polynomial(p, names=p.names, dtype=D))(_poly(T, xT, one)), {(0,): castTD, (1,): one.astype(D)}))
+    # the raw structured storage as input (documented input kind) with a dtype requested
+    eps.append(("polynomial(p_T.values, names, dtype=D)", lambda: (lambda p: numpoly.polynomial(p.values, names=p.names, dtype=D))(_poly(T, xT, one)), {(0,): castTD, (1,): one.astype(D)}))
+    eps.append(("aspolynomial(p_T.values, names, dtype=D)", lambda: (lambda p: numpoly.aspolynomial(p.values, names=p.names, dtype=D))(_poly(T, xT, one)), {(0,): castTD, (1,): one.astype(D)}))
     eps.append(("aspolynomial(p_T, dtype=D)", lambda: numpoly.aspolynomial(_poly(T, xT, one), dtype=D), {(0,): castTD, (1,): one.astype(D)}))
     # arithmetic between dtypes: numpy's promoted dtype and values on the raw arrays
     oneD = _lin(D, variant)
@@ -336,7 +339,16 @@ def own_body(ctx: H.BaseCtx):
                 ("concatenate of empty slices", lambda: numpoly.concatenate([a[3:], a[:0]]), (0,)),
                 ("empty slice ** 2", lambda: a[3:] ** 2, (0,)),
                 ("negative of empty slice", lambda: -a[3:], (0,)),
-            ):
+                ("astype(own type) of empty slice", lambda: a[3:].astype(a.dtype), (0,)),
+                ("empty slice indexed with ...", lambda: a[3:][...], (0,)),
+                ("empty slice sliced again", lambda: a[3:][:1], (0,)),
+                ("empty slice given a new axis", lambda: a[3:][:, None], (0, 1)),
+                ("empty slice reshaped to (2, 0), then row 1", lambda: numpoly.reshape(a[3:], (2, 0))[1], (0,)),
+            ) + (() if ctx.symbolic else (
+                ("astype(float32) of empty slice", lambda: a[3:].astype("f4"), (0,)),
+                ("astype(int8) of an empty (0, 3) array", lambda: numpoly.polynomial(numpy.zeros((0, 3), dtype="i8")).astype("i1"), (0, 3)),
+                ("pickle round trip of empty slice", lambda: __import__("pickle").loads(__import__("pickle").dumps(a[3:])), (0,)),
+            )):
                 r = f()
                 if tuple(r.shape) != shape:
                     ctx.fail("shape", "%s: shape %s, expected %s" % (label, tuple(r.shape), shape))
